@@ -167,7 +167,15 @@ func Explore(cfg Config, run func(x *Exec, owned bool)) Stats {
 			st.MaxDepth = len(x.Trace)
 		}
 		if len(x.Trace) < len(nd.prefix) {
-			panic(HarnessError{fmt.Sprintf("replay divergence: execution ended after %d points, prefix has %d", len(x.Trace), len(nd.prefix))})
+			missing := ""
+			if len(x.Trace) < len(nd.expect) {
+				missing = fmt.Sprintf(" (the parent execution had %q with %d alternatives there)", nd.expect[len(x.Trace)].Label, nd.expect[len(x.Trace)].N)
+			}
+			last := ""
+			if len(x.Trace) > 0 {
+				last = fmt.Sprintf("; last point reached: %q", x.Trace[len(x.Trace)-1].Label)
+			}
+			panic(HarnessError{fmt.Sprintf("replay divergence: execution ended after %d points, prefix has %d%s%s", len(x.Trace), len(nd.prefix), missing, last)})
 		}
 		// children, pushed so that the earliest position / lowest alternative is explored first
 		cost := nd.cost
